@@ -20,20 +20,21 @@ Fits(e, f) == (e = "XMLWriter.write_file" => f = "XML") /\ (e = "RDFWriter.write
 \* wmode "error": the caller has turned warnings into exceptions (python -W error); then the
 \* report of a warnings-only document is itself a way for the save to raise
 \* variant: where in the tree the defect sits (1: top-level siblings, 2: parent and child / nested,
-\* 3: different branches at depth >= 2, as a keep_id clone appended elsewhere produces)
+\* 3: different branches at depth >= 2, as a keep_id clone appended elsewhere produces; 4, 5: see Valid)
 \* prior: "fresh" - the writer object is new; "reused" - the same writer object has saved the document before, to another
 \*        path, while the document was still valid and free of faults; the document was then edited into the case's state
 \* tname: "ext" - the target name carries its extension; "noext" - it has none and odml.save appends the backend's,
 \*        so the file at stake (absent / holding earlier data) is <name>.<backend>
 Cases == {[validity |-> v, fault |-> ft, fmt |-> f, file |-> fs, entry |-> e, opt |-> o, wmode |-> w, variant |-> n, prior |-> pr, tname |-> tn] :
              v \in Validity, ft \in Faults, f \in Formats, fs \in FileStates, e \in Entries,
-             o \in {"plain", "local_style", "custom_template", "template_tuple"}, w \in {"default", "error"}, n \in 1..4,
+             o \in {"plain", "local_style", "custom_template", "template_tuple"}, w \in {"default", "error"}, n \in 1..5,
              pr \in {"fresh", "reused"}, tn \in {"ext", "noext"}}
 Valid(c) == Fits(c.entry, c.fmt)
             /\ (c.prior = "reused" => c.entry # "odml.save" /\ c.opt = "plain" /\ c.wmode = "default" /\ c.tname = "ext" /\ c.fault \in {"none", "text-xml-cannot-hold"})
             /\ (c.tname = "noext" => c.entry = "odml.save" /\ c.opt = "plain" /\ c.wmode = "default") /\ (c.opt # "plain" => c.fmt = "XML") /\ (c.wmode = "error" => c.validity = "warnings" /\ c.entry \in Validating)
             /\ (c.variant > 1 => c.validity \in ErrorsV /\ c.fault = "none" /\ c.opt = "plain")
             /\ (c.variant = 4 => c.validity = "dup-ids")          \* 4: a Section carries the id of its own Document
+            \* 5: the defect sits in a copy that a resolved link brought into the document and that was edited afterwards
 
 \* REFERENCE: does the serialisation itself fail for this case?
 SerialisationFails(c) == \/ c.fmt = "RDF:bogus"
@@ -57,5 +58,6 @@ WarningsOnlyIsSaved(o) == (o.c.validity = "warnings" /\ ~SerialisationFails(o.c)
 \* (whether a document carrying a planted fault, or an invalid one written by a lower-level writer,
 \* loads again is not part of C07)
 SavedIsLoadable(o) == o.out = "saved" => (o.after = "new" /\ ((o.c.fault = "none" /\ o.c.validity \notin ErrorsV) => o.loads))
-Conforms(o) == o.c.fault = "text-file-cannot-encode" \/ o.c.opt = "template_tuple" \/ ((RefOutcome(o.c) = "saved") <=> (o.out = "saved"))
+\* (what the non-validating RDF writer does with an invalid copy inside a resolved link is not specified by the reference)
+Conforms(o) == o.c.fault = "text-file-cannot-encode" \/ o.c.opt = "template_tuple" \/ (o.c.variant = 5 /\ o.c.entry = "RDFWriter.write_file") \/ ((RefOutcome(o.c) = "saved") <=> (o.out = "saved"))
 ====
